@@ -176,14 +176,15 @@ Slots(k) ==
     CASE k = "reqline" ->
            <<{<<71,69,84>>, <<103,101,116>>, <<71,40,84>>, <<71,233>>, <<33,35,126>>, <<>>},   \* GET get G(T G(e') !#~ ""
              Seps,
-             {<<47>>, <<47,97,63,98,61,99>>, <<42>>, <<47,233>>, <<47,257>>, <<47,97,32,98>>, <<47,127>>, <<47,9>>,
-              <<104,116,116,112,58,47,47,104,47,112>>, <<>>},   \* / /a?b=c * /e' /a-macron "/a b" /DEL /TAB http://h/p ""
+             {<<47>>, <<47,233>>, <<47,257>>, <<47,97,32,98>>, <<47,127>>, <<104,116,116,112,58,47,47,104,47,112>>, <<>>}
+               \cup (IF Level >= 2 THEN {<<47,97,63,98,61,99>>, <<42>>, <<47,9>>} ELSE {}),   \* / /a?b=c * /e' /a-macron "/a b" /DEL /TAB http://h/p ""
              Seps, Versions>>
       [] k = "statusline" ->
            <<Versions, Seps,
              {<<50,48,48>>, <<57,57>>, <<49,48,48,48>>, <<50,120,48>>, <<1634,48,48>>, <<>>},    \* 200 99 1000 2x0 (arabic 2)00 ""
              {SP, <<>>, <<32, 32>>},
-             {<<79,75>>, <<>>, <<78,111,116,32,70,111,117,110,100>>, <<233>>, <<97,9,98>>, <<127>>, <<257>>, <<79,10,75>>}>>
+             {<<79,75>>, <<>>, <<97,9,98>>, <<127>>, <<257>>, <<79,10,75>>}
+               \cup (IF Level >= 2 THEN {<<78,111,116,32,70,111,117,110,100>>, <<233>>} ELSE {})>>
                                                                   \* OK "" "Not Found" e' a\tb DEL a-macron O\nK
       [] k = "params" ->
            LET names == {<<97>>, <<98>>, <<97,45,98>>}
@@ -207,9 +208,10 @@ FreeTokens(k) ==
                              \cup {<<117,116,102,45,56,39,39>>, <<97,42,61>>, <<97,42,48,61>>, <<59,32,97,42,61>>}  \* utf-8'' a*= a*0= "; a*="
       [] k = "hostport" -> Chars({97, 58, 48, 57, 91, 93, 46, 32}) \cup {<<56,48,56,48>>, <<58,58,49>>}  \* 8080 ::1
       [] k = "reesc"    -> Chars({97, 46, 92, 42, 45, 32, 233, 48, 95, 10, 126, 35, 47})
-      [] k = "ip"       -> Chars({58, 46, 48, 49, 103, 0, 32}) \cup {<<58,58>>, <<102,102,102,102>>, <<70,70>>, <<49,50,51,52,53>>,
-                              <<50,53,53>>, <<50,53,54>>, <<48,49>>, <<49,46,50,46,51,46,52>>, <<108,111,99,97,108,104,111,115,116>>,
-                              <<97,46,98>>, <<120,49>>, <<49,58,50,58,51,58,52,58,53,58,54>>}
+      [] k = "ip"       -> Chars({58, 46, 48, 49, 103, 0}) \cup {<<58,58>>, <<102,102,102,102>>,
+                              <<50,53,53>>, <<50,53,54>>, <<49,46,50,46,51,46,52>>, <<108,111,99,97,108,104,111,115,116>>,
+                              <<97,46,98>>, <<49,58,50,58,51,58,52,58,53,58,54>>}
+                              \cup (IF Level >= 2 THEN {<<32>>, <<70,70>>, <<49,50,51,52,53>>, <<48,49>>, <<120,49>>} ELSE {})
                               \* :: ffff FF 12345 255 256 01 1.2.3.4 localhost a.b x1 1:2:3:4:5:6
       [] OTHER -> {}
 IsFree(k) == k \in {"total", "hostport", "reesc", "ip"}
